@@ -92,7 +92,8 @@ fn roundtrip(rep: &mut Report, m: &Message, what: &str, expect_err: bool) {
             }
         }
     });
-    let desc = || json!({"kind":"text_message","what":what,"message":format!("{:?}", m).chars().take(400).collect::<String>()});
+    // Debug of a text field reads it as str: that may itself panic on a broken field
+    let desc = || json!({"kind":"text_message","what":what,"message":catch(|| format!("{:?}", m).chars().take(400).collect::<String>()).unwrap_or_else(|p| format!("<Debug panics: {}>", p.message))});
     match (r, expect_err) {
         (Err(p), _) => rep.violation("C17", format!("msg:{}:panic:{}", m.number().unwrap_or(0), p.location), format!("{}: panic {}", what, p.message), 1, desc()),
         (Ok(Err(_)), true) => rep.outcome("refused-as-required"),
@@ -100,7 +101,7 @@ fn roundtrip(rep: &mut Report, m: &Message, what: &str, expect_err: bool) {
         (Ok(Ok((_, f))), true) => rep.violation("C17", format!("msg:{}:not-refused", m.number().unwrap_or(0)), format!("{}: built a frame of {} bytes although the text exceeds 127 characters / 255 bytes", what, f.len()), 1, desc()),
         (Ok(Ok((m2, _))), false) => {
             if &m2 != m {
-                rep.violation("C17", format!("msg:{}:roundtrip", m.number().unwrap_or(0)), format!("{}: text field changed through encode/decode: got {}", what, format!("{:?}", m2).chars().take(300).collect::<String>()), 1, desc());
+                rep.violation("C17", format!("msg:{}:roundtrip", m.number().unwrap_or(0)), format!("{}: text field changed through encode/decode: got {}", what, catch(|| format!("{:?}", m2).chars().take(300).collect::<String>()).unwrap_or_default()), 1, desc());
             } else {
                 rep.outcome("message-roundtrip");
             }
